@@ -467,6 +467,8 @@ class ArgumentParser(ParserDeprecations, ActionsContainer, ArgumentLinking, argp
 
         except (TypeError, KeyError) as ex:
             self.error(str(ex), ex)
+        finally:
+            self.__dict__.pop("print_config", None)  # a --print_config request never outlives its parse_args call
 
         self._logger.debug("Parsed command line arguments: %s", args)
         return parsed_cfg
